@@ -203,9 +203,7 @@ func (f *FrozenFunds) get(height uint64) *Model {
 	ff.height = height
 	ff.markDirty = f.markDirty
 
-	f.setToMap(height, ff)
-
-	return ff
+	return f.setToMapIfAbsent(height, ff)
 }
 
 func (f *FrozenFunds) markDirty(height uint64) {
@@ -281,6 +279,20 @@ func (f *FrozenFunds) setToMap(height uint64, model *Model) {
 	defer f.lock.Unlock()
 
 	f.list[height] = model
+}
+
+// setToMapIfAbsent caches a record that was just loaded from the tree unless another goroutine
+// (an API query running next to block execution) has loaded and cached the same record in the
+// meantime; it returns the cached object, so that every caller works on one and the same object.
+func (f *FrozenFunds) setToMapIfAbsent(height uint64, model *Model) *Model {
+	f.lock.Lock()
+	defer f.lock.Unlock()
+
+	if existing := f.list[height]; existing != nil {
+		return existing
+	}
+	f.list[height] = model
+	return model
 }
 
 func getPath(height uint64) []byte {
